@@ -131,12 +131,26 @@ async fn rawpeer(c: &Value) -> Value {
       tokio::task::yield_now().await;
     }
   }
+  // optional: the peer half-closes after its last write (EOF follows the data), and the application starts
+  // receiving only after a delay (so that the socket's queue is full and the session holds a backlog by then)
+  if c.get("close_after_write").and_then(|v| v.as_bool()).unwrap_or(false) {
+    use tokio::io::AsyncWriteExt as _;
+    let _ = wr.shutdown().await;
+  }
+  let app_delay = c.get("app_delay_ms").and_then(|v| v.as_u64()).unwrap_or(0);
+  if app_delay > 0 {
+    tokio::time::sleep(Duration::from_millis(app_delay)).await;
+  }
   let expect = u(c, "expect_msgs") as usize;
   let rt = Duration::from_millis(c.get("recv_timeout_ms").and_then(|v| v.as_u64()).unwrap_or(700));
   let mut rows: Vec<Vec<u64>> = Vec::new();
   let mut got = 0usize;
   // always try one more than expected to detect duplicates / spurious messages
+  let app_pace = c.get("app_pace_ms").and_then(|v| v.as_u64()).unwrap_or(0);
   for _ in 0..expect + 1 {
+    if app_pace > 0 {
+      tokio::time::sleep(Duration::from_millis(app_pace)).await;
+    }
     match tokio::time::timeout(rt, sock.recv_multipart()).await {
       Ok(Ok(frames)) => {
         got += 1;
